@@ -1149,12 +1149,44 @@ Qed.
    theorems above speak about                                              *)
 From Verif Require Import C15.Call.
 
-Lemma interp_call_float_ok (var : variants) k ss (cvs : list (list R)) flat i :
-  malformed cvs i None = false -> (mesh1_raises var && mesh1 i = false)%bool ->
-  degenerate (schemes_of k ss cvs) cvs = false ->
-  interp_call var k ss cvs DFloat flat i None = Ok (run k ss cvs flat i).
+Lemma malformed_false_rejected (cvs : list (list R)) i o : malformed cvs i o = false -> rejected cvs i o = None.
+Proof. unfold malformed. destruct (rejected cvs i o); [discriminate | reflexivity]. Qed.
+
+(* the regenerated per_axis dispatch: index-based exactly when no axis is linear *)
+Lemma index_based_no_linear (ss : list scheme) : gen_peraxis_index_based ss = negb (has_linear ss).
 Proof.
-  intros Hm H1 Hd. unfold interp_call. rewrite Hm, H1. destruct k; try rewrite Hd; reflexivity.
+  unfold gen_peraxis_index_based, has_linear.
+  induction ss as [|s r IH]; [reflexivity|]. cbn [forallb existsb]. destruct s; cbn [andb orb negb].
+  - exact IH.
+  - reflexivity.
+Qed.
+
+Lemma linear_scheme_is_linear : gen_linear_scheme = SLinear.
+Proof. reflexivity. Qed.
+
+Lemma interp_call_float_ok k ss (cvs : list (list R)) flat i :
+  malformed cvs i None = false -> degenerate (schemes_of k ss cvs) cvs = false ->
+  interp_call current k ss cvs DFloat flat i None = Ok (run current k ss cvs flat i).
+Proof.
+  intros Hm Hd. unfold interp_call. rewrite (malformed_false_rejected _ _ _ Hm).
+  cbn [mesh1_raises current andb]. destruct k; try rewrite Hd; reflexivity.
+Qed.
+
+(* per_axis_interpolator with all-'nearest' schemes IS the nearest_interpolator call, for every value
+   dtype (integer and string included), every input and every out argument *)
+Lemma peraxis_all_nearest_call k_ss (cvs : list (list R)) dt flat i o :
+  has_linear k_ss = false ->
+  interp_call current KPerAxis k_ss cvs dt flat i o = interp_call current KNearest k_ss cvs dt flat i o.
+Proof.
+  intros Hl. unfold interp_call. destruct (rejected cvs i o) as [[|]|]; try reflexivity.
+  cbn [mesh1_raises current andb int_raises orb schemes_of].
+  assert (Hd : degenerate k_ss cvs = false).
+  { unfold degenerate. clear -Hl. revert cvs. induction k_ss as [|s r IH]; intros [|c cvs]; try reflexivity.
+    cbn [combine existsb fst snd]. cbn [has_linear existsb] in Hl. apply orb_false_elim in Hl as [Hs Hr].
+    destruct s; [|discriminate]. cbn [orb]. apply IH. exact Hr. }
+  assert (Hrun : run current KPerAxis k_ss cvs flat i = run current KNearest k_ss cvs flat i).
+  { unfold run. cbn [int_raises current negb andb]. rewrite index_based_no_linear, Hl. reflexivity. }
+  destruct dt; rewrite ?Hl, ?Hd, Hrun; reflexivity.
 Qed.
 
 (* admissible axes are never degenerate *)
@@ -1167,21 +1199,37 @@ Proof.
   destruct Hlen as [Hn|[Hs _]]; [cbn in Hn; exfalso; apply (Nat.nle_succ_diag_l 1); exact Hn | discriminate].
 Qed.
 
-(* in the repaired variant, a mesh-grid call and the point-array call on the Cartesian product
-   give the same outcome *)
-Lemma repaired_mesh_equals_points (l : list (scheme * list R * list R)) (flat : list R) :
-  let var := {| int_raises := false; mesh1_raises := false |} in
+(* a mesh-grid call and the point-array call on the Cartesian product give the same outcome *)
+Lemma mesh_call_equals_points (l : list (scheme * list R * list R)) (flat : list R) :
   let ss := map m_s l in let cvs := map m_c l in let mesh := map m_xs l in
+  has_linear ss = true ->
   degenerate ss cvs = false -> malformed cvs (IPoints (cart mesh)) None = false ->
-  interp_call var KPerAxis ss cvs DFloat flat (IMesh mesh) None
-  = interp_call var KPerAxis ss cvs DFloat flat (IPoints (cart mesh)) None.
+  interp_call current KPerAxis ss cvs DFloat flat (IMesh mesh) None
+  = interp_call current KPerAxis ss cvs DFloat flat (IPoints (cart mesh)) None.
 Proof.
-  intros var ss cvs mesh Hd Hm.
+  intros ss cvs mesh Hl Hd Hm.
   assert (Hmm : malformed cvs (IMesh mesh) None = false).
-  { unfold malformed, cvs, mesh. rewrite !map_length, Nat.eqb_refl. reflexivity. }
-  unfold interp_call. rewrite Hm, Hmm. cbn [mesh1_raises var andb schemes_of]. rewrite Hd.
-  unfold run. cbn [schemes_of]. unfold ss, cvs, mesh. rewrite peraxis_mesh_pointwise. reflexivity.
+  { unfold malformed, rejected, cvs, mesh. rewrite !map_length, Nat.eqb_refl. reflexivity. }
+  unfold interp_call. rewrite (malformed_false_rejected _ _ _ Hm), (malformed_false_rejected _ _ _ Hmm).
+  cbn [mesh1_raises current andb schemes_of]. rewrite Hd.
+  unfold run. cbn [int_raises current negb andb schemes_of]. rewrite index_based_no_linear, Hl. cbn [negb].
+  unfold ss, cvs, mesh. rewrite peraxis_mesh_pointwise. reflexivity.
 Qed.
+
+Lemma nearest_mesh_call_equals_points (l : list (scheme * list R * list R)) dt (flat : list R) :
+  let cvs := map m_c l in let mesh := map m_xs l in
+  malformed cvs (IPoints (cart mesh)) None = false ->
+  interp_call current KNearest [] cvs dt flat (IMesh mesh) None
+  = interp_call current KNearest [] cvs dt flat (IPoints (cart mesh)) None.
+Proof.
+  intros cvs mesh Hm.
+  assert (Hmm : malformed cvs (IMesh mesh) None = false).
+  { unfold malformed, rejected, cvs, mesh. rewrite !map_length, Nat.eqb_refl. reflexivity. }
+  unfold interp_call. rewrite (malformed_false_rejected _ _ _ Hm), (malformed_false_rejected _ _ _ Hmm).
+  cbn [mesh1_raises current andb].
+  unfold run. unfold cvs, mesh. rewrite nearest_mesh_pointwise. reflexivity.
+Qed.
+
 
 (* ------------------------------------------------------------------ *)
 (* the complete textbook reference, for EVERY real evaluation point (the Coq counterpart of the
@@ -1346,4 +1394,50 @@ Proof.
     replace ((1 + 3) / 2) with 2 in Ht by lra. exact Ht. }
   pose proof (nearest_closest [0; 1; 3] 2 Ha ltac:(cbn; repeat constructor)) as Hc.
   rewrite Hn in Hc. exact Hc.
+Qed.
+
+(* ------------------------------------------------------------------ *)
+(* calling conventions by shape: which non-meshgrid inputs are accepted, and what comes back.
+   (gen_check_array_input, gen_is_valid_input_array, gen_out_shape_from_array are regenerated
+   from _check_interp_input and odl/util/vectorization.py.)                     *)
+Definition conv_ref (d : nat) (xshape : list nat) : option (list nat) :=
+  if (d =? 1)%nat then
+    match xshape with
+    | [] => Some []                      (* a scalar: one point, scalar result *)
+    | [n] => Some [n]                    (* n points *)
+    | [a; n] => if (a =? 1)%nat then Some [n] else None     (* (1, n): n points *)
+    | _ => None
+    end
+  else
+    match xshape with
+    | [a] => if (a =? d)%nat then Some [] else None         (* (d,): one point, scalar result *)
+    | [a; n] => if (a =? d)%nat then Some [n] else None     (* (d, n): n points *)
+    | _ => None
+    end.
+
+Lemma div_cancel_l d n : (1 <= d)%nat -> (d * (n * 1) / d = n)%nat.
+Proof. intros Hd. rewrite Nat.mul_1_r, Nat.mul_comm. apply Nat.div_mul. lia. Qed.
+
+
+Ltac sh := cbn [nats_eqb length nth fst snd prodn fold_right andb orb negb Nat.eqb].
+Ltac sh2 := sh; rewrite ?andb_false_r, ?Nat.ltb_irrefl; sh.
+Lemma array_call_shape_ref (d : nat) (xshape : list nat) : (1 <= d)%nat ->
+  array_call_shape d xshape = conv_ref d xshape.
+Proof.
+  intros Hd. unfold array_call_shape, conv_ref, gen_check_array_input, gen_is_valid_input_array,
+    gen_out_shape_from_array.
+  destruct (Nat.eqb_spec d 1) as [-> | Hd1].
+  - destruct xshape as [|a [|n [|c r]]]; sh2.
+    + reflexivity.
+    + rewrite !Nat.mul_1_r, Nat.mul_1_l, Nat.div_1_r. reflexivity.
+    + destruct (a =? 1)%nat eqn:E; sh2; [|reflexivity].
+      apply Nat.eqb_eq in E. subst a. rewrite !Nat.mul_1_r, Nat.mul_1_l, Nat.div_1_r. reflexivity.
+    + reflexivity.
+  - assert (H1 : (1 <? d)%nat = true) by (apply Nat.ltb_lt; lia).
+    destruct xshape as [|a [|n [|c r]]]; sh2; rewrite ?H1; sh2.
+    + reflexivity.
+    + destruct (a =? d)%nat eqn:E; sh2; [|reflexivity]. rewrite ?Nat.eqb_refl. reflexivity.
+    + destruct (a =? d)%nat eqn:E; sh2; [|reflexivity].
+      apply Nat.eqb_eq in E. subst a. rewrite div_cancel_l by exact Hd. reflexivity.
+    + reflexivity.
 Qed.
